@@ -3,7 +3,7 @@ allocation size, release/re-seat pairing, swap hand-over, rule of three.
 
 Decides necessary conditions only (DESIGN.md section 3, C08); content equality with a
 reference byte queue is not decided."""
-from .. import q
+from .. import q, fin
 from ..facts import AnalysisBroken
 from . import lin_buffer
 from . import c08_alias
@@ -64,7 +64,13 @@ def run(prog, chk):
                     chk.ok("C08.a", f, what, f.where(w.node) if w.node is not None else "", "buffer is null on every path to this write (non-owning)")
                     continue
                 avoid = q.pos_of(f, T) | (q.pos_of(f, wnodes) - {w.pos})
-                path = f.find_path(w.pos, {f.exit_pos()}, avoid=avoid)
+                # a path that leaves over the `buffer is null` edge of a test ends in a non-owning buffer: no terminator is owed there
+                cut = set()
+                for b_ in f.blocks.values():
+                    nt_ = fin.null_test(f, b_.get("cond")) if len(b_["succ"]) == 2 and b_.get("tk") != "SwitchStmt" else None
+                    if nt_ is not None and nt_[0] == "this->buffer" and b_["succ"][nt_[1]] is not None:
+                        cut.add((b_["id"], b_["succ"][nt_[1]]))
+                path = fin.path_with_cuts(f, w.pos, f.exit_pos(), avoid=avoid, cut=cut)
                 if path is None:
                     chk.ok("C08.a", f, what, f.where(w.node) if w.node is not None else "", "every path to the exit stores 0 through bufferEnd", evals=2)
                 else:
